@@ -91,7 +91,16 @@ class LockstepReader:
         self._compare(name, args, ro, mo)
         if ro[0] == "raise":
             raise {"ValueError": ValueError, "RuntimeError": RuntimeError}[ro[1]]("lock-step: both raised")
+        if self.scribble and isinstance(ro[1], bytearray):
+            # the returned bytearray belongs to the caller: whatever the caller does to it (here: overwrite
+            # and grow it) must not show in any later read of this or another reader
+            out = bytearray(ro[1])
+            ro[1][:] = b"\xa5" * len(ro[1])
+            ro[1].extend(b"ABC")
+            return out
         return ro[1]
+
+    scribble = False
 
     # -- EoReader API
     def get_byte(self):
@@ -168,6 +177,7 @@ class LockstepReader:
             raise ValueError("lock-step: both raised")
         child = LockstepReader(ro[1], mo[1], trace=self.trace, fuel=self.fuel, counter=self.counter, guard=self.guard, touch=self.touch)
         child.modes = self.modes
+        child.scribble = self.scribble
         child.check_state("slice-child", args)
         return child
 
